@@ -722,6 +722,7 @@ func (y *c16L2Sys) Letters(s *c16L2State) []engine.Letter {
 			{"height=max", alice, "uxx", sdkmath.NewInt(3), math.MaxUint64, nil},
 			{"data=10 kB", alice, "uxx", sdkmath.NewInt(3), 4, bytes.Repeat([]byte{0xfe}, 10_000)},
 			{"from=non-ASCII", alice, "uxx", sdkmath.NewInt(3), 4, nil},
+			{"a second l2 denom of the same base denom", alice, "uxx", sdkmath.NewInt(3), 4, nil},
 		} {
 			d := d
 			ops = append(ops, c16L2Op{"Deposit[" + d.name + "]", deliver(func(s *c16L2State, ctx sdk.Context) sdk.Msg {
@@ -733,6 +734,9 @@ func (y *c16L2Sys) Letters(s *c16L2State) []engine.Letter {
 				l2d := den
 				if d.base != "uxx" {
 					l2d = ophosttypes.L2Denom(1, d.base)
+				}
+				if d.name == "a second l2 denom of the same base denom" {
+					l2d = ophosttypes.L2Denom(2, "uxx")
 				}
 				return opchildtypes.NewMsgFinalizeTokenDeposit(ex, from, d.to, sdk.NewCoin(l2d, d.amt), n, d.height, d.base, d.data)
 			})})
